@@ -202,6 +202,18 @@ def run_update(ck_ob, mod, label):
                         raise Broken("tinyjambu_hash_update: a helper integer carried by the block loop does not keep its steady value %d (it becomes %s): unrecognised shape" % (v_, bv))
         AUXPHIS[(f.name, h_)] = set(hc)
         break
+    # the input length keeps its full width: a value computed from inlen that is cut to fewer bits with no bound on the path decides wrongly
+    # for inputs of 2^w bytes and more (complete, and independent of the loop shape: looked at before the shape is)
+    seen_n = set()
+    for p_ in paths:
+        for e_ in p_.events:
+            if e_[0] == "narrowing" and e_[1] not in seen_n and not (len(e_) > 4 and e_[4]):
+                seen_n.add(e_[1])
+                c("STREAM", False, "length-narrowed#%s" % e_[1], "",
+                  "the length-derived value %s is truncated to %d bits with no bound on this path: for an update of 2^%d bytes or more the wrong number of bytes is buffered or compressed"
+                  % (e_[3], e_[2], e_[2]), relpath(f.insts[e_[1]].where))
+    if seen_n:
+        return len(seen_n)
     # whole-block loops: the top-level loops carrying one input cursor and one remaining length (inner loops with a
     # decided trip count are followed by the executor; several alternative block loops, e.g. per alignment class, are allowed)
     tops = {}
